@@ -222,6 +222,7 @@ def run_case(case):
         X, Y, Z = (np.array([p[k] for p in P]) for k in range(3))
         st = State(instance_variables=dict(temp=float, salt=float))
         st.append(X=X, Y=Y, Z=Z, temp=0.0, salt=0.0)
+        st["active"][::5] = False  # settled particles are not moved, but they are alive: they feel the forcing at their position like the others
         tk = TimeKeeper(start=world.iso(S0), stop=world.iso(S0 + 5 * DT), dt=DT)
         try:
             force = Forcing(dict(time=tk, grid=grid, state=st), pattern, extra_forcing=["temp", "salt"])
